@@ -42,9 +42,9 @@ MUTANTS = {
     "m10_mask_saved_as_float32": (["C19"], [("pandora/common.py",
         '        os.path.join(output, get_out_file_path("right_validity_mask.tif")),\n            dtype=rasterio.dtypes.uint16,\n',
         '        os.path.join(output, get_out_file_path("right_validity_mask.tif")),\n')]),
-    "m11_mkdir_p_swallows_errors": (["C19"], [("pandora/common.py",
-        '        if exc.errno == errno.EEXIST and os.path.isdir(path):\n            pass\n        else:\n            raise\n',
-        '        if exc.errno == errno.EEXIST:\n            pass\n        else:\n            raise\n')]),
+    "m11_save_config_swallows_oserror": (["C19"], [("pandora/common.py",
+        '    with open(  # pylint:disable=unspecified-encoding\n        os.path.join(output, get_out_file_path("config.json")), "w"\n    ) as file_:\n        json.dump(user_cfg, file_, indent=2)\n',
+        '    try:\n        with open(  # pylint:disable=unspecified-encoding\n            os.path.join(output, get_out_file_path("config.json")), "w"\n        ) as file_:\n            json.dump(user_cfg, file_, indent=2)\n    except OSError as exc:\n        logging.warning("configuration not saved: %s", exc)\n')]),
     "m12_check_dataset_skips_msk_shape": (["C17"], [("pandora/check_configuration.py",
         '    for data_var in filter(lambda i: i != "im", dataset):',
         '    for data_var in filter(lambda i: i not in ("im", "msk"), dataset):')]),
